@@ -31,6 +31,7 @@ EXPLANATION = (
     " (R13) unique_column_names is decided on the number of duplicated labels, never on their truth value (labels 0 / '' are legal). " 
     "NOT decided: the biconditional accept(S,D) <=> D |= S "
     "itself - pandas semantics on data (NaN in duplicated, dtype equality, regex expansion on real labels)."
+    ' R6 evaluates option guards through local definitions (a local that names the option test).'
 )
 LEVEL_RULE = "one obligation per pipeline / (attribute, function) / (check, option row) / write site"
 FLOORS = {"R1": 12, "R2": 25, "R3": 20, "R4": 5, "R5": 2, "R6": 10, "R7": 6, "R8": 12, "R9": 3, "R10": 1, "R11": 3, "R12": 6}
